@@ -675,6 +675,15 @@ Proof.
   - intros t x Ht Hx. exact (lib_flat_shape _ IH t Ht x Hx).
 Qed.
 
+(* C14: the text of everything the derive builds there is the text of its structural meaning (the flatten rewrites
+   `merge`, `unwrap` included): print (norm t) = print t *)
+Theorem gen_norm_ok fuel id d args r : lookup R id = Some d -> forallb rty_clean args = true ->
+  gen is_upper is_alnum is_numeric R fuel d args = Ok r -> norm_ok (fst r) = true.
+Proof.
+  intros Hl Ha H. destruct (gshape_checked is_alnum is_numeric _ (proj1 (gen_shape fuel id d args r Hl Ha H))) as [Hp _].
+  unfold norm_ok. rewrite Hp. apply str_eqb_refl.
+Qed.
+
 Lemma dummies_clean a : forallb param_cleanb (c_params a) = true -> forallb rty_clean (dummies a) = true.
 Proof.
   unfold dummies. induction (c_params a) as [|p l IH]; cbn [map forallb]; intros H; [reflexivity|]. apply andb_true_iff in H as [H1 H2].
